@@ -843,7 +843,7 @@ theorem intersect_union_sound_lists_pfv {C : String → Prop}
   exact ⟨fun h => by have := intersect_sound_partial S hev ha hb h; exact ⟨this.1, this.2.2⟩,
     fun h => by have := union_sound_partial S hev ha hb h; exact ⟨this.1, this.2.2⟩⟩
 
-/-- **`python_full_version` lists.**  `python_full_version in "…"` / `not in "…"` on lists of two- and
+/-- **`python_full_version` lists.**  `python_full_version in "…"` / `not in "…"` on lists of one-, two- and
 three-component versions are leaves of the same-name merge: a three-component token contributes `==a.b.c` /
 `!=a.b.c`, a two-component token the wildcard clause `a.b.*` / `!=a.b.*`; the constraint string the constructor
 builds is read as a constraint of the regular setting over Python bounds (two- and three-component bounds mixed —
@@ -867,6 +867,14 @@ theorem python_full_version_list_built {X Y Z : Nat}
   obtain ⟨res, B, hres, _⟩ := parse_pfvList_reg isIn t0 (rest.map (·.2))
   exact ⟨_, mkSingle_pfvList isIn t0 rest hs hres, ⟨isIn, t0, rest, res, hs, hres, rfl⟩,
     pfvListLeaf_means hE isIn t0 rest hs hres⟩
+
+/-- **one-component tokens**: `python_full_version in "3"` is `3.*` (`>=3,<4`): true on 3.0.1, false on 2.11.2 and
+4.0.0 — a leaf of the same fragment (`PTok.one`), so every theorem on `PfvLeafL` / `PyLeafLL` covers it -/
+example (X Y Z : Nat) (hE : E.get? "python_full_version" = some (Version.relText [X, Y, Z])) :
+    ∃ s, mkSingle "python_full_version" ("in" ++ pfvList (.one 3) []) false = .ok s ∧
+      PfvListLeaf (.single s) ∧ pfvList (.one 3) [] = "3" ∧ leafEval E (.single s) = decide (X = 3) := by
+  obtain ⟨s, h1, h2, h3⟩ := python_full_version_list_built hE true (.one 3) [] (by simp)
+  exact ⟨s, h1, h2, by decide, by rw [h3]; simp [PTok.hit]⟩
 
 /-- **The pairing with lists on both variables, no hypothesis.**  `_merge_python_version_single_markers` on a
 `python_version` leaf (seven operators or a list) against a `python_full_version` leaf (seven operators or a list
@@ -1017,8 +1025,10 @@ the extras (and, where used, a release-number `platform_release`):
 * `extra == / !=`, plain values;
 * `python_version` with `== != < <= > >= ~=` and a literal `X.Y`, and `in` / `not in` lists of `X.Y` tokens;
 * `python_full_version` with the seven operators and a literal `X.Y.Z` (`X` / `X.Y` are padded by the
-  constructor to `X.0.0` / `X.Y.0` and land here), and `in` / `not in` lists of `X.Y` and `X.Y.Z` tokens (an `X.Y`
-  token lists `X.Y.*`: the deliberate extension `pfv-list-two-component`), including the pairing with
+  constructor to `X.0.0` / `X.Y.0` and land here), and `in` / `not in` lists of `X`, `X.Y` and `X.Y.Z` tokens (an `X`
+  token lists `X.*`, an `X.Y` token `X.Y.*`: the deliberate extension `pfv-list-two-component`; the one-component
+  `python_version ==` unsoundness of the conversion is NOT inherited — a `python_full_version` list is never
+  converted, it is merged by the same-name merge on its own constraint), including the pairing with
   `python_version` for the seven operators and for the lists on either side;
 * `platform_release` with the seven operators and a release number of one to three components.
 
@@ -1040,8 +1050,8 @@ there, U = unproved, no counterexample known, E = an exception instead of a mark
    exclusive `<`); `(python_version > "3.8").intersect(python_full_version == "3.9.0rc1")` is empty, both true.
 6. U pre-release / post / dev / local literals with three components, four-component literals on
    `python_full_version`, wildcard literals `== "3.8.*"` / `!= "3.8.*"` (the lists are their sugar), `===`.
-7. U lists on `python_full_version` with a one-component token (`"3"` = `3.*`) or a token of four or more
-   components, lists on `python_version` with a token that is not `X.Y`, `in` / `not in` lists on string variables
+7. U lists on `python_full_version` with a token of four or more components, lists on `python_version` with a
+   token that is not `X.Y`, `in` / `not in` lists on string variables
    as single leaves (inversion is proved: `lists_ready_to_invert`).
 8. U reversed operands on the version variables (`"3.8" <= python_version`), string values with white space,
    quotes, `|`, `,` or a leading `=` (known finding `generic-literal-whitespace`), `extra` with `in`/`not in`
